@@ -188,11 +188,11 @@ def splitNl (cells : List Cell) : List (List Cell) :=
 /-- Oracle for `RichText.Draw` with `Softwrap = false`, on the implementation's surface only
 (written from the property text, not from the model): the surface has `min(#lines, Max.Height)`
 rows and is at most `Max.Width` wide; row `k` shows line `k` cell by cell at cumulative columns;
-a line may be cut short by one "…" in the style of the cell it replaces, after which the row is
-blank — but only where the rest of the line does **not** fit into the remaining columns
-(`needless-ellipsis` when it fits exactly, known finding F316; `early-ellipsis` when with room to
-spare); without an ellipsis the whole line is there and no cell sticks out
-over `Max.Width`. -/
+a line that does not fit `Max.Width` is cut short by one "…" in the style of the cell it replaces, after
+which the row is blank: the "…" stands where the rest of the line does **not** fit into the remaining
+columns (`needless-ellipsis` when it fits exactly — finding F316, fixed; `early-ellipsis` when with room to
+spare), behind the longest prefix that leaves it a column (`short-prefix`), and it must be there
+(`missing-ellipsis`); a line that fits is there whole and no cell sticks out over `Max.Width`. -/
 def hardDrawVerdict (cells : List Cell) (impl : String) (maxW maxH : Nat) : String :=
   if impl = "panic" then "FAIL hard_draw panic" else if impl = "hang" then "FAIL hard_draw hang" else
   let ls := splitNl cells
@@ -218,12 +218,17 @@ def hardDrawVerdict (cells : List Cell) (impl : String) (maxW maxH : Nat) : Stri
               else
                 let g := got.getD col "_"
                 let remaining := natWidth (c :: cs)
-                if g == s!"E{c.style}" then
-                  -- F316: the rest of the line fits exactly (the shape the `i < len(chars)` guard produces);
-                  -- an ellipsis with room to spare is a different defect and gets a different verdict
+                if c.w > 0 ∧ g == s!"E{c.style}" then   -- (a zero-width grapheme is never the one replaced)
+                  -- F316 (fixed in /repo 65842f0): the rest of the line fits exactly (the shape the old
+                  -- `i < len(chars)` guard produced); an ellipsis with room to spare is a different defect
                   if remaining == maxW - col then some s!"needless-ellipsis row={r} col={col} remaining={remaining} maxw={maxW}"
                   else if remaining < maxW - col then some s!"row={r} col={col} early-ellipsis remaining={remaining} maxw={maxW}"
+                  -- the line does not fit: the ellipsis stands behind the *longest* prefix that leaves it a column
+                  else if col + c.w + 1 ≤ maxW then some s!"row={r} col={col} short-prefix the next grapheme (width {c.w}) still leaves room at maxw={maxW}"
                   else if blankFrom (col + 1) then none else some s!"row={r} col={col} cells after the ellipsis"
+                else if remaining > maxW - col ∧ c.w > 0 ∧ col + c.w ≥ maxW then
+                  -- the line does not fit and this grapheme leaves no column for the ellipsis: it must be the ellipsis
+                  some s!"row={r} col={col} missing-ellipsis remaining={remaining} maxw={maxW}"
                 else if c.w == 0 then
                   -- overwritten by the next cell unless it is the last one of the line
                   if !cs.isEmpty then walk cs col
